@@ -81,24 +81,35 @@ VROOT = "/s"
 VPERMS = {"u1": [], "u2": [("/s/sub", True, False), ("/s/x/y", False, True)], "u3": [("/s", True, False)]}
 
 
-def make_server(delays=None, vroots=False):
+def make_server(delays=None, vroots=False, tmp=None):
+    """tmp None: instrumented MemoryPathIO; otherwise instrumented PathIO (a backend without shared state) below tmp."""
     ctl = harness.Ctl()
     ctl.record = False
     if delays:
         ctl.delays = dict(delays)
+    base = tmp or ""
     if vroots:
-        users = [aioftp.User(u[0], u[1], base_path="/base_" + u[0], home_path="/",
+        users = [aioftp.User(u[0], u[1], base_path=base + "/base_" + u[0], home_path="/",
                              permissions=[aioftp.Permission("/")] + [aioftp.Permission(p_, readable=r_, writable=w_) for p_, r_, w_ in VPERMS[u[0]]])
                  for u in USERS if u]
     else:
-        users = [aioftp.User()] + [aioftp.User(u[0], u[1]) for u in USERS if u]
-    server = aioftp.Server(users, path_io_factory=instrument(aioftp.MemoryPathIO, ctl), wait_future_timeout=2, block_size=128)
+        users = [aioftp.User(base_path=base or ".")] + [aioftp.User(u[0], u[1], base_path=base or ".") for u in USERS if u]
+    server = aioftp.Server(users, path_io_factory=instrument(aioftp.PathIO if tmp else aioftp.MemoryPathIO, ctl), wait_future_timeout=2,
+                           block_size=128)
+    server.verif_ctl = ctl
     return server
 
 
-def prepare(server, vroots):
+def prepare(server, vroots, tmp=None):
     if vroots:
-        harness.mem_populate(server, {"/base_" + u[0]: harness.DIR for u in USERS if u})
+        if tmp:
+            harness.fs_populate(tmp, {"/base_" + u[0]: harness.DIR for u in USERS if u})
+        else:
+            harness.mem_populate(server, {"/base_" + u[0]: harness.DIR for u in USERS if u})
+
+
+def tree_of(server, tmp):
+    return harness.fs_tree(tmp) if tmp else harness.mem_tree(server)
 
 
 def subtree(tree, root):
@@ -112,30 +123,54 @@ def real_root(root, user, vroots):
     return "/base_" + user[0] if vroots else root  # everything below the user's base directory
 
 
-def solo(name, root, user, vroots=False):
-    key = (name, root, user, vroots)
+def solo(name, root, user, vroots=False, fs=False):
+    key = (name, root, user, vroots, fs)
     if key not in _SOLO:
+        td = harness.TempDirs() if fs else None
+        tmp = td.new() if fs else None
+
         async def go(loop):
-            server = make_server(vroots=vroots)
+            server = make_server(vroots=vroots, tmp=tmp)
             await server.start(HOST, PORT)
-            prepare(server, vroots)
+            prepare(server, vroots, tmp)
             r = ScriptRunner(render(personalise(ALL[name], user, root), root))
             await r.run()
             r.close()
             await asyncio.sleep(0.5)
-            tree = harness.mem_tree(server)
+            tree = tree_of(server, tmp)
             await server.close()
             return normalise(r.transcript), subtree(tree, real_root(root, user, vroots))
 
-        _SOLO[key] = simnet.run(go)
+        try:
+            _SOLO[key] = simnet.run(go)
+        finally:
+            if td:
+                td.cleanup()
     return _SOLO[key]
 
 
-async def _concurrent(loop, sessions, delays, cut, info, vroots=False):
-    server = make_server(delays, vroots)
+async def _concurrent(loop, sessions, delays, cut, info, vroots=False, tmp=None):
+    server = make_server(delays, vroots, tmp)
     await server.start(HOST, PORT)
-    prepare(server, vroots)
+    prepare(server, vroots, tmp)
     runners = [ScriptRunner(render(personalise(ALL[name], user, root), root)) for name, root, user in sessions]
+    # attribution: the backend instance that touches a session's subtree carries that session's connection object
+    ctl = server.verif_ctl
+    base_hit = ctl.hit
+    owners = [real_root(root, user, vroots).strip("/").split("/")[0] for name, root, user in sessions]
+
+    async def hit(name, path=None, conn=None):
+        if path is not None and conn is not None and "stray" not in info:
+            parts = str(path)[len(tmp or ""):].strip("/").split("/")
+            if parts and parts[0] in owners:
+                port = conn.client_port
+                mine = [i for i, r_ in enumerate(runners) if r_.raw.w is not None and r_.raw.w.get_extra_info("sockname")[1] == port]
+                if mine and owners[mine[0]] != parts[0] and owners.count(parts[0]) == 1:
+                    info["stray"] = dict(operation=name, path=str(path), backend_instance_belongs_to_session=mine[0],
+                                         path_belongs_to_session=owners.index(parts[0]))
+        return await base_hit(name, path, conn)
+
+    ctl.hit = hit
     overlap = [0]
 
     def count_overlap():
@@ -164,7 +199,7 @@ async def _concurrent(loop, sessions, delays, cut, info, vroots=False):
     for r in runners:
         r.close()
     await asyncio.sleep(1.0)
-    tree = harness.mem_tree(server)
+    tree = tree_of(server, tmp)
     await asyncio.wait_for(server.close(), 1000)
     info["overlap"] = overlap[0]
     info["hung"] = bool(pending)
@@ -177,6 +212,7 @@ def check(ctx, case):
     # third mode (drawn through the first pick): different users, each confined to its own base directory, all working
     # under the SAME virtual names with different rights on them - what one user may do under a name says nothing about another
     vroots = (not same_user) and picks[0] % 3 == 0
+    fs = picks[-1] % 4 == 0  # a quarter of the cases on the real file system (PathIO: a backend without shared state)
     for i, ni in enumerate(picks):
         user = None if same_user else USERS[1 + i % 3]
         sessions.append((NAMES[ni % len(NAMES)], VROOT if vroots else "/s%d" % i, user))
@@ -184,14 +220,18 @@ def check(ctx, case):
     victim = None
     if cut is not None:
         victim = cut[0] % len(sessions)
+    td = harness.TempDirs() if fs else None
+    tmp = td.new() if fs else None
     try:
-        transcripts, tree = simnet.run(lambda loop: _concurrent(loop, sessions, dict(delays), cut, info, vroots), tape)
+        transcripts, tree = simnet.run(lambda loop: _concurrent(loop, sessions, dict(delays), cut, info, vroots, tmp), tape)
+        if info.get("stray"):
+            raise Violation("C17/backend_instance_of_another_session_used", dict(sessions=sessions, **info["stray"]))
         if info.get("hung"):
             raise Violation("C17/session_hung", dict(sessions=sessions))
         for i, (name, root, user) in enumerate(sessions):
             if i == victim and info.get("cut_done"):
                 continue
-            exp_t, exp_tree = solo(name, root, user, vroots)
+            exp_t, exp_tree = solo(name, root, user, vroots, fs)
             got = transcripts[i]
             if got != exp_t:
                 j = next((k for k, (a, b) in enumerate(zip(got, exp_t)) if a != b), min(len(got), len(exp_t)))
@@ -207,11 +247,13 @@ def check(ctx, case):
                                                                               got=sorted(subtree(tree, real_root(root, user, vroots))),
                                                                               solo=sorted(exp_tree)))
     finally:
+        if td:
+            td.cleanup()
         ctx.count(case, info.get("overlap", 0) > 0,
                   sample=dict(sessions=[(n, r, u[0] if u else "anonymous") for n, r, u in sessions], tape=tape[:8], delays=delays,
                               cut=cut, transfers_overlapping_samples=info.get("overlap")),
                   classes=["n_%d" % len(sessions), "same_user" if same_user else ("same_virtual_names" if vroots else "different_users")]
-                  + (["overlap"] if info.get("overlap") else []) + (["cut"] if info.get("cut_done") else [])
+                  + (["overlap"] if info.get("overlap") else []) + (["cut"] if info.get("cut_done") else []) + ["backend_fs" if fs else "backend_mem"]
                   + ["script_" + s[0] for s in sessions])
 
 
